@@ -795,6 +795,14 @@ def hErsReconcile (inp out : Json) : Except String Findings := do
   let fs := if closeEnough then fs else diff fs "requeueAfter" o.requeueAfter m.requeueAfter
   -- ---- specification clauses on the implementation's API calls
   let fs := spec fs "C12.writes-owned" o.foreign.isEmpty
+  -- C18 "only valid settings influence pods": settings that are not valid (in error, not yet
+  -- reconciled) must be inert — the sync on the store WITHOUT them decides the same early error and
+  -- the same set of creations (the model ignores them by construction: theorem C18_only_valid_used)
+  let mValid := reconcileErs rs { st with settings := st.settings.filter (fun s => s.status == "valid") }
+    (fun n => !inBackoff.contains n) aff now
+  let fs := spec fs "C18.only-valid-influence"
+    (st.settings.all (fun s => s.status == "valid") || faulted ||
+      ((o.kind == "err") == mValid.earlyErr && o.creates.length == mValid.creates.length))
   let role := ersRole d rs.name
   let canaryNodes := match d.status.canary with | some cs => cs.nodes | none => []
   -- C01 at the API: at most one creation per node, only on listed fit nodes carrying no live pod of the EDS
